@@ -28,7 +28,7 @@ L1 = {
                 assumptions=[INTERN, "the wire-level causes of a connection ending (idle timeout, TCP reset, ...) funnel into the same HandleDisconnect; that funnel is C08's subject"]),
     "C07": dict(profile="C07", n_quick=240, n_thorough=8000, len_thorough=300, own_kinds=[3],
                 rule="online-generated histories (profile C07: long create / join / switch / end cycles over up to 4 sessions with session-id reuse, joins of live, dead, guessed and junk ids; hook snapshot of registry keys, gauge and frame-handler counts after ~40% of the ops); non-trivial = contains an accepted and a refused join; distinct by op list",
-                assumptions=["sequential histories; the lock-granularity interleavings of concurrent joins / departures are not decided by this check (see level_note)"]),
+                assumptions=["the handler-level histories are sequential; the lock-granularity interleavings of concurrent joins / departures are decided by the second part of this check (coverage.concurrent_clause)"]),
     "C10": dict(profile="C10", n_quick=240, n_thorough=8000, len_thorough=400, own_kinds=[3, 8, 18, 201],
                 rule="online-generated histories (profile C10: hundreds of allocations of participant, entity, type and asset ids with releases, session create / end cycles building reusable id pools); non-trivial = contains an accepted and a refused allocating request; distinct by op list",
                 assumptions=["fewer than 2^32-1 allocations per generator (uint32 wrap is in the model and excluded by hypothesis in the theorems)", INTERN]),
@@ -68,7 +68,24 @@ def mod_entry(modname):
         return m.run(tier, replay)
     return f
 
+def c07_entry(tier, replay):
+    """C07 = the sequential clauses (handler level, like the other relay properties) + the concurrent clause
+    (lock-granularity schedules on the instrumented real handlers against coq/Conc.v)"""
+    from . import c07conc
+    if replay:
+        if replay.endswith(".json"):
+            return c07conc.do_replay(replay)
+        return l1check.replay("C07", replay)
+    rc1 = l1check.run("C07", tier, L1["C07"])
+    if rc1 == 2:
+        return 2
+    rc2 = c07conc.run(tier, None, merge=True)
+    if rc2 == 2:
+        return 2
+    return 1 if (rc1 or rc2) else 0
+
 CHECKS = {pid: l1_entry(pid) for pid in L1}
+CHECKS["C07"] = c07_entry
 for _pid, _mod in (("C08", "c08check"), ("C09", "c09check"), ("C15", "c15check"), ("C19", "c19check"), ("C20", "c20check")):
     CHECKS[_pid] = mod_entry(_mod)
 
